@@ -199,7 +199,10 @@ def readPatchHunk (patch : List PatchOp) : Outcome (Hunk × List PatchOp) :=
           | .panic => .panic
         else if q.op == "add" then
           match readPointer q.path with
-          | .ok path => .ok ({ path := path, before := before, after := after, add := [q.value] }, rest)
+          | .ok path =>
+            -- an append ("-") cannot carry context tests
+            if lastIdx? path == some (-1) && (before.any (fun n => !n.isVoid) || after.any (fun n => !n.isVoid)) then .err
+            else .ok ({ path := path, before := before, after := after, add := [q.value] }, rest)
           | .err => .err
           | .panic => .panic
         else .err
